@@ -5,7 +5,7 @@ SRC = ["source/ring_buffer.c", "source/byte_buf.c", "source/common.c", "source/e
 def spec(tier):
     smax = 12 if tier == "quick" else 40
     units = {"rb": dict(harness=["C15/h_ring.c"], sources=SRC, stubs=["base.c", "alloc_direct.c", "mem0.c"], defines={"SMAX": smax},
-                        pre_include=["harness/C15/verif_atomics.h"], native=False)}
+                        pre_include=["harness/C15/verif_atomics.h"])}
     jobs = []
     for e, w in [("h_ring_acquire", "one acquire from an arbitrary J-state"), ("h_ring_acquire_up_to", "one acquire_up_to from an arbitrary J-state"),
                  ("h_ring_release", "release of the oldest of 1..3 outstanding buffers"),
